@@ -145,8 +145,68 @@ def run(sl, nsl):
         print(m["id"], res["result"], res.get("killed_by", ""), flush=True)
 
 
+# second pass: survivors are run against further properties that also observe the file
+EXTRA = {
+    "internal/position/position.go": ["C16", "C08", "C15", "C06"],
+    "internal/attacks/attacks.go": ["C15"],
+    "internal/movegen/movegen.go": ["C09", "C07", "C19"],
+    "internal/types/bitboard.go": ["C09", "C08"],
+    "internal/types/move.go": ["C11", "C08"],
+    "internal/types/square.go": ["C01"],
+    "internal/transpositiontable/tt.go": ["C05"],
+    "internal/evaluator/evaluator.go": ["C06"],
+    "internal/search/alphabeta.go": ["C13", "C12"],
+    "internal/search/search.go": ["C07", "C06", "C19"],
+    "internal/uci/uci.go": ["C14", "C05"],
+    "internal/openingbook/openingbook.go": [],
+}
+
+
+def rerun(sl, nsl):
+    assert REPO != "/repo", "run inside a scratch copy only"
+    import glob
+    rs = []
+    for f in sorted(glob.glob("/verif/tools/mutants/auto_results.[0-9]*.jsonl")):
+        rs += [json.loads(l) for l in open(f)]
+    outp = "/verif/tools/mutants/auto_rerun.%d.jsonl" % sl
+    k = 0
+    for r in rs:
+        if r["result"] != "survived" or not EXTRA.get(r["file"]):
+            continue
+        k += 1
+        if k % nsl != sl:
+            continue
+        path = os.path.join(REPO, r["file"])
+        lines = open(path).read().split("\n")
+        if lines[r["line"] - 1] != r["old"]:
+            continue
+        lines[r["line"] - 1] = r["new"]
+        open(path, "w").write("\n".join(lines))
+        res = {"id": r["id"], "file": r["file"], "line": r["line"], "old": r["old"], "new": r["new"], "result": "survived", "checks": {}}
+        try:
+            for pid in EXTRA[r["file"]]:
+                t0 = time.time()
+                p = sh(["./check", pid, "--tier", "quick"], ROOT, 1500, {"VERIF_SEED": "1"})
+                sig = ""
+                for line in p.stdout.splitlines():
+                    if re.match(r"^  C\d\d/", line):
+                        sig = line.strip()
+                        break
+                res["checks"][pid] = {"exit": p.returncode, "s": round(time.time() - t0, 1), "sig": sig}
+                if p.returncode == 1:
+                    res["result"] = "killed"
+                    res["killed_by"] = pid
+                    break
+        finally:
+            subprocess.run(["git", "-C", REPO, "checkout", "--", "."])
+        open(outp, "a").write(json.dumps(res) + "\n")
+        print(r["id"], res["result"], res.get("killed_by", ""), flush=True)
+
+
 if __name__ == "__main__":
     if sys.argv[1] == "gen":
         gen(int(sys.argv[2]) if len(sys.argv) > 2 else 1)
+    elif sys.argv[1] == "rerun":
+        rerun(int(sys.argv[2]), int(sys.argv[3]))
     else:
         run(int(sys.argv[2]), int(sys.argv[3]))
